@@ -152,7 +152,7 @@ class Spec:
         return sum(e[1] for e in self.elems)
 
 
-def gen_elem(rng, cfg, fixed, max_count, left_bytes, same_counts=None):
+def gen_elem(rng, cfg, fixed, max_count, left_bytes, same_counts=None, vmax=250):
     """values of one element; returns (text, payload bytes, varying counts)"""
     vals = []
     payload = 0
@@ -173,12 +173,12 @@ def gen_elem(rng, cfg, fixed, max_count, left_bytes, same_counts=None):
             if i + 1 < len(cfg.params) and cfg.params[i + 1][0] == "v":
                 vals.append([vcounts[i + 1]])
             else:
-                vals.append([rng.randint(1, 250)])
+                vals.append([rng.randint(1, vmax)])
         elif k == "f":
-            vals.append([rng.randint(1, 250) for _ in range(fixed[fi])])
+            vals.append([rng.randint(1, vmax) for _ in range(fixed[fi])])
             fi += 1
         else:
-            vals.append([rng.randint(1, 250) for _ in range(vcounts[i])])
+            vals.append([rng.randint(1, vmax) for _ in range(vcounts[i])])
             counts.append(vcounts[i])
     text = ";".join(",".join(map(str, v)) if v else "-" for v in vals)
     return text, payload, counts
@@ -312,5 +312,49 @@ def gen_history(rng, cfg, length, weights=None, equal_sizes=False, allocs=(1,), 
                 del specs[k]
         elif op == "dump":
             lines.append("dump v%d" % k)
+    lines.append("end")
+    return lines
+
+
+def gen_compare(rng, cfg, n_cmp):
+    """three vectors with equal fixed sizes over a small value domain (ties in leading fields), then comparisons
+    of every operand pair, interleaved with pops/erases so that spare capacity and old contents differ"""
+    lines = ["tables"]
+    fixed = [rng.choice([0, 1, 2]) for _ in range(cfg.nfixed())]
+    if not any(p[0] == "p" for p in cfg.params) and sum(fixed) == 0:
+        fixed[0] = 1
+    sizes = {}
+    for k in range(3):
+        cap = rng.choice([3, 4, 6])
+        lines.append("new v%d %d %d %s 1" % (k, cap, 64, fixed_text(fixed)))
+        n = rng.choice([0, 1, 2, 2, 3])
+        sizes[k] = 0
+        for _ in range(n):
+            text, pay, _ = gen_elem(rng, cfg, fixed, 2, 20, vmax=2)
+            lines.append("emplace v%d %s" % (k, text))
+            sizes[k] += 1
+    # make one vector a copy-by-value of another now and then (equal content in different memory)
+    for _ in range(n_cmp):
+        r = rng.random()
+        a, b, c = rng.randrange(3), rng.randrange(3), rng.randrange(3)
+        if r < 0.3:
+            lines.append("cmpv v%d v%d" % (a, b))
+        elif r < 0.4:
+            lines.append("transv v%d v%d v%d" % (a, b, c))
+        elif r < 0.75:
+            if sizes[a] and sizes[b]:
+                lines.append("cmpe v%d %d v%d %d" % (a, rng.randrange(sizes[a]), b, rng.randrange(sizes[b])))
+        elif r < 0.9:
+            if sizes[a] and sizes[b] and sizes[c]:
+                lines.append("transe v%d %d v%d %d v%d %d" % (a, rng.randrange(sizes[a]), b, rng.randrange(sizes[b]), c, rng.randrange(sizes[c])))
+        elif r < 0.95:
+            if sizes[a]:
+                lines.append("pop v%d" % a)
+                sizes[a] -= 1
+        else:
+            if sizes[a] < 3:
+                text, pay, _ = gen_elem(rng, cfg, fixed, 2, 8, vmax=2)
+                lines.append("emplace v%d %s" % (a, text))
+                sizes[a] += 1
     lines.append("end")
     return lines
